@@ -631,6 +631,27 @@ Next:
     }
   }
 
+  // Validate EVEX-only Resources
+  // ----------------------------
+
+  // Vector registers 16..31 and a forced EVEX prefix are only encodable by instructions that have an EVEX form.
+  if (!common_info.has_flag(InstDB::InstFlags::kEvex) && common_info.has_flag(InstDB::InstFlags::kVex)) {
+    if (ASMJIT_UNLIKELY(Support::test(options, InstOptions::kX86_Evex))) {
+      return make_error(Error::kInvalidInstruction);
+    }
+
+    for (i = 0; i < op_count; i++) {
+      const Operand_& op = operands[i];
+      if (op.is_reg() && op.as<Reg>().is_vec() && op.id() >= 16u && op.id() < Operand::kVirtIdMin) {
+        return make_error(Error::kInvalidPhysId);
+      }
+      if (op.is_mem() && op.as<Mem>().has_index_reg() && op.as<Mem>().index_id() >= 16u && op.as<Mem>().index_id() < Operand::kVirtIdMin &&
+          uint32_t(op.as<Mem>().index_type()) >= uint32_t(RegType::kVec128) && uint32_t(op.as<Mem>().index_type()) <= uint32_t(RegType::kVec512)) {
+        return make_error(Error::kInvalidPhysId);
+      }
+    }
+  }
+
   // Validate AVX512 Options
   // -----------------------
 
